@@ -242,6 +242,11 @@ Read(c, sh) ==
       H == (1..N(c)) \ opened                 \* healShards after openPartReaders = healing writers
       via0 == (IF \E i \in opened : sh[i].ver = "old" THEN {"D-C17-stale-mix"} ELSE {})
               \cup (IF \E i \in opened : sh[i].ver = "frn" THEN {"D-C17-foreign-shard"} ELSE {}) IN
+  IF \A i \in 1..N(c) : ~sh[i].present
+  THEN \* openPartReaders: every shard store answers ErrPartNotFound => the part does not
+       \* exist: ErrPartNotFound, nothing is healed (no header-only shard files)
+       [ok |-> FALSE, len |-> 0, err |-> "notfound", stripe |-> -1, via |-> {}, cls |-> "", post |-> sh]
+  ELSE
   Loop(c, [sh |-> sh, open |-> opened, H |-> H, heal |-> [i \in H |-> <<>>], k |-> 0, len |-> 0,
            m |-> [v \in {"cur", "old", "frn"} |-> TRUE], via |-> via0])
 
